@@ -239,8 +239,10 @@ def parse_instr(line):
         # strip call attrs and fast-math flags
         while True:
             t = rest.split(None, 1)
-            if t[0] in _fmf or t[0] in _PARAM_ATTRS or t[0] in ("fastcc", "ccc"):
+            if t[0] in _fmf or t[0] in _PARAM_ATTRS or t[0] in ("fastcc", "ccc") or t[0].startswith("dereferenceable"):
                 rest = t[1]
+            elif t[0] == "align":
+                rest = t[1].split(None, 1)[1]
             else:
                 break
         ty, r = parse_type_prefix(rest)
